@@ -61,6 +61,13 @@ def str_format(interp, fmt, arg):
         d = chr(fe[i + 1])
         if d == "%":
             out.append(37)
+        elif d == "r":
+            if ai >= len(args):
+                raise TypeError("not enough arguments for format string")
+            a = args[ai]
+            ai += 1
+            r = m_repr(interp, (a,), {})
+            out.extend(elems(repr(a) if r is NATIVE else r))
         elif d in "sd":
             if ai >= len(args):
                 raise TypeError("not enough arguments for format string")
